@@ -814,12 +814,52 @@ REL = {"die": rel_die, "stog": rel_stog, "alloc": rel_alloc, "netlist": rel_netl
        "legal": rel_legal, "strop": rel_strop, "defaults": rel_defaults}
 
 
+def rect_numbers(d):
+    """[cx, cy, w, h] of every rectangle an operation hands to the library (where the harness predicts its
+    candidate tolerance)"""
+    op = d["op"]
+    k = op["k"]
+    if k == "stog":
+        return [r[:4] for r in op["rects"]]
+    if k == "alloc":
+        return [c[0][:4] for c in op["cells"]]
+    if k == "die":
+        doc = op["doc"]
+        if not isinstance(doc, dict):
+            return []
+        regs = doc.get("regions", [])
+        regs = [regs] if regs and not isinstance(regs[0], list) else regs
+        return [r[:4] for r in regs] + [r[:4] for r in (d.get("fixed") or [])]
+    if k in ("legal", "netlist") and not d.get("needs_installer") and isinstance(op.get("doc"), dict):
+        out = []
+        for info in op["doc"].get("Modules", {}).values():
+            rs = info.get("rectangles", []) if isinstance(info, dict) else []
+            rs = [rs] if rs and not isinstance(rs[0], list) else rs
+            out += [r[:4] for r in rs]
+        return out
+    return []
+
+
+def reaches_guard(d):
+    """the rectangle parser refuses negative numbers BEFORE the constructor reaches the 'epsilon defined?' guard;
+    the predicted candidate tolerance of such an operation would be wrong, so it is not generated (a mirrored or
+    shifted copy of a module that sticks out of the positive quadrant)"""
+    try:
+        return all(F(r[0]) >= 0 and F(r[1]) >= 0 and F(r[2]) > 0 and F(r[3]) > 0 and
+                   (d["op"]["k"] != "alloc" or (F(r[0]) - F(r[2]) / 2 >= 0 and F(r[1]) - F(r[3]) / 2 >= 0))
+                   for r in rect_numbers(d))
+    except (TypeError, ValueError):
+        return False
+
+
 def relatives(rng, d):
     out = []
     for r in REL[d["kind"]](rng, d):
         ds = r.get("dims")
         if ds is not None and (ds[0] <= 0 or ds[1] <= 0):
             continue                                  # a degenerate rectangle: not a design of comparable scale
+        if r["note"] != "rel:self" and not reaches_guard(r):
+            continue
         r.setdefault("needs_installer", False)
         out.append(r)
     return out
